@@ -102,6 +102,8 @@ def jose(repo):
     from authlib.jose.rfc7517.base_key import Key as _K
     lines.append("def privateKeyOps : List String := " + lean_str_list(list(_K.PRIVATE_KEY_OPS)))
     lines.append("def publicKeyOps : List String := " + lean_str_list(list(_K.PUBLIC_KEY_OPS)))
+    lines.append("/-- `Key.ALLOWED_PARAMS`: the options a key object copies into its members -/")
+    lines.append("def allowedParams : List String := " + lean_str_list(list(_K.ALLOWED_PARAMS)))
     lines.append("")
     lines.append("def registeredHeaderParameterNames : List String := " + lean_str_list(sorted(JsonWebSignature.REGISTERED_HEADER_PARAMETER_NAMES)))
     lines.append("")
